@@ -78,7 +78,9 @@ pub enum OpKind {
     Clear,
     /// `unwind`: the iterator is neither dropped normally nor forgotten — the consumer panics while holding it, so
     /// it is dropped during unwinding (the model treats this like a drop)
-    It { kind: IterKind, calls: Vec<bool>, forget: bool, unwind: bool },
+    /// `via`: how the rest is consumed before the iterator is dropped: 0 nothing, 1 `nth(usize::MAX)`, 2 `skip(big).next()`,
+    /// 3 `count()`, 4 `last()`, 5 `nth_back(usize::MAX)` — for the model all of them are a drop of the iterator
+    It { kind: IterKind, calls: Vec<bool>, forget: bool, unwind: bool, via: u8 },
     Dbg,
     Nop,
     /// `threads` reader threads run the same script of shared-reference operations concurrently
@@ -155,8 +157,9 @@ impl OpKind {
                 s
             }
             OpKind::Clear => "clear".to_owned(),
-            OpKind::It { kind, calls, forget, unwind } => {
-                format!("it {} {} {}", kind.name(), calls_str(calls), if *forget { "f" } else if *unwind { "u" } else { "d" })
+            OpKind::It { kind, calls, forget, unwind, via } => {
+                let fate = if *forget { "f" } else if *unwind { "u" } else { ["d", "o", "s", "c", "l", "O"][(*via as usize).min(5)] };
+                format!("it {} {} {}", kind.name(), calls_str(calls), fate)
             }
             OpKind::Dbg => "dbg".to_owned(),
             OpKind::Nop => "nop".to_owned(),
@@ -306,6 +309,7 @@ impl Line {
                         calls: calls.chars().filter(|c| *c == 'f' || *c == 'b').map(|c| c == 'f').collect(),
                         forget: *fate == "f",
                         unwind: *fate == "u",
+                        via: match *fate { "o" => 1, "s" => 2, "c" => 3, "l" => 4, "O" => 5, _ => 0 },
                     },
                     ["dbg"] => OpKind::Dbg,
                     ["nop"] => OpKind::Nop,
